@@ -44,7 +44,8 @@ type Resolver struct {
 // NewResolver creates a new did:web Resolver with default TLS configuration.
 func NewResolver() *Resolver {
 	return &Resolver{
-		HttpClient: client.NewWithCache(5 * time.Second),
+		// the document must be served by the origin the DID encodes
+		HttpClient: client.NewWithCache(5 * time.Second).SameOriginRedirectsOnly(),
 	}
 }
 
